@@ -9,10 +9,10 @@ import (
 // C11: independent trees sharing a store and a node cache, used from different goroutines.
 // The runner adds -race for this test; a report of the race detector is a violation.
 func TestBounded_C11(t *testing.T) {
-	rounds := 6
-	steps := 80
+	rounds := 30
+	steps := 120
 	if bTier() == "thorough" {
-		rounds, steps = 40, 200
+		rounds, steps = 120, 200
 	}
 	univ := 48
 	for round := 1; round <= rounds; round++ {
